@@ -126,6 +126,7 @@ class Gen:
     def __init__(self, rng, tier):
         self.rng = rng
         self.tier = tier
+        self.semi_any = False     # F34 stream: ';' also inside tag values / non-lowercase TEXT keys
 
     # --- coordinates / sizes in the notation of frame `fr` (None => pick a style at random)
     def pos_pair(self, fr, exact):
@@ -300,11 +301,11 @@ class Gen:
             elif k == 'text':
                 d, v, cls = self.text_value(allow_semi=True)
             elif k == 'tag':
-                d, v, cls = self.text_value(allow_semi=False)
+                d, v, cls = self.text_value(allow_semi=self.semi_any)
                 if cls == 'numeric':
                     d, v = '{', 'grp ' + v
             key = vcase(rng, k)
-            if k == 'text' and ';' in v:
+            if k == 'text' and ';' in v and not self.semi_any:
                 key = 'text'          # see F34: ';' inside a value is only protected for the lowercase key `text`
             eq = '=' if rng.random() < 0.9 else rng.choice([' = ', '= ', ' ='])
             items.append({'key': key, 'eq': eq, 'd': d, 'val': v})
@@ -394,6 +395,7 @@ class Gen:
 
     def file(self):
         rng = self.rng
+        self.semi_any = rng.random() < 0.06
         stmts = []
         if rng.random() < 0.4:
             stmts.append({'t': 'comment', 'text': '# Region file format: DS9 version 4.1'})
@@ -780,6 +782,33 @@ def scope_info(stmts):
     return out
 
 
+def semi_triggers(stmts):
+    """F34 input class: a ';' inside a delimited value whose key is not the lowercase literal `text`."""
+    out = []
+    for i, s in enumerate(stmts):
+        for p in (s.get('props') or {'items': []})['items'] if s['t'] in ('region', 'badshape') else []:
+            if ';' in p['val'] and p['d'] and p['key'] != 'text':
+                out.append((i, p['key']))
+    return out
+
+
+def without_semis(lines):
+    """the same file with every triggering ';' replaced by ','."""
+    out = []
+    for line in lines:
+        nl = []
+        for s in line:
+            if s.get('props') and s['t'] in ('region', 'badshape'):
+                s = dict(s)
+                pr = dict(s['props'])
+                pr['items'] = [dict(p, val=p['val'].replace(';', ',')) if (';' in p['val'] and p['d'] and p['key'] != 'text')
+                               else p for p in pr['items']]
+                s['props'] = pr
+            nl.append(s)
+        out.append(nl)
+    return out
+
+
 class Check(PropertyCheck):
     id = 'C10'
     lean_targets = ['RegionsVerif.Props.C10']
@@ -792,35 +821,42 @@ class Check(PropertyCheck):
             'numbers are not representable in the frame (arcsec in image, 10i in fk5, physical p), in any order; '
             'x notation (bare, " \' d r i, a:b:c, ahbmcs, adbmcs, signs, padding) x separators (newline / ; , optional parentheses, '
             'commas or blanks) x keyword and key case x include sign x property lists (color width fill dash dashlist font point '
-            'textangle include flags text tag with {} "" \'\' delimiters and verbatim content). '
+            'textangle include flags text tag with {} "" \'\' delimiters and verbatim content incl. ; # = other delimiters, numeric-looking '
+            'and blank-padded text); 6% of the files also put ";" into tag values / non-lowercase TEXT keys (F34 class). '
             '60% of region lines use dyadic decimals (compared EXACTLY), the rest general decimals / sexagesimal / radians '
             '(1e-9 relative). Non-trivial = the reference yields at least one region.')
     assumptions = [
-        'the token stream handed to the reference is the lexing of the text handed to the real parser: both are rendered from '
-        'one structured statement by harness/c10.py (stmt_text / stmt_toks); there is no character-level lexer in Lean',
+        'tokenisation: the token stream the reference interprets is rendered by harness/c10.py from the same structured statement '
+        'as the text given to the real parser, AND is checked on every file to equal Spec.Ds9.lex(text), the executable Lean lexer '
+        '(driver reply lex_ok); there are no theorems about the lexer itself',
         'float(text) is the correctly rounded value of a decimal literal (CPython); astropy Angle/Quantity keep value and unit as '
         'given (canonicalisation reads .value/.unit and converts arcsec/arcmin/hourangle to degrees in exact rationals)',
-        'radians are compared by value (x*180/pi in doubles, 1e-9 relative): the reference keeps them symbolic',
+        'radians are compared by value (x*180/pi in doubles, 1e-9 relative): the reference keeps them symbolic (Val.rad)',
         'visual properties are compared through the package\'s DS9->matplotlib key translation read backwards (color<-facecolor/edgecolor, '
         'width<-linewidth/markeredgewidth, dash<-linestyle, font<-fontname.., point<-marker/markersize, textangle<-rotation); '
         'fill only applies to circle/ellipse/box/polygon, dash not to point/text, point to points, textangle to text',
         'longitudes are generated in [0,360) (hours in [0,24)), latitudes in (-90,90): wrapping is not part of the property',
+        'a comment always ends its physical line (DS9 comments run to the end of the line); every other statement may be followed by ";"',
     ]
     validated_only = [
         'CONFORMANCE OF THE REAL PARSER: the theorems of Props/C10.lean are about the reference interpreter Spec.Ds9.interp; that '
         'regions.io.ds9.read agrees with it is decided by this differential run only (no refinement theorem Impl = Spec)',
-        'lexing (characters -> tokens): case folding of keywords is executable Lean (Spec.Ds9.classify/mkKV) but number, delimiter and '
-        'whitespace lexing is done by the harness renderer',
+        'lexing (characters -> tokens) is executable Lean (Spec.Ds9.lex, classify, mkKV) and is validated against the harness renderer '
+        'on every generated file, but no theorem is stated about it: the separator / punctuation / case theorems are at token level',
         '"skipped with a warning": the presence of a warning for each unsupported line is checked on the real parser only (oracle)',
-        'outside the grammar (nothing claimed): composite, "# text(...)" spelling, box/ellipse without angle (the real parser raises), '
-        'wrong parameter counts, text containing its own closing delimiter, valueless flags (treated as comment text), duplicate keys in '
-        'one property list, tag in a global line, angles in arcsec/arcmin, exponent notation, longitude wrap, contradictory '
-        '"-shape ... include=1" is read as included (property list after sign)',
+        'known findings F31-F34 are input classes on which the real parser differs from the reference; they are reported as '
+        'KNOWN-FINDING with the predicate of known_findings/C10.json and excluded from nothing else (for F34 files the metamorphic '
+        'oracle clauses are not evaluated: every layout of such a file is split differently by the same defect)',
+        'outside the grammar (nothing claimed): composite, "# text(...)" spelling, box/ellipse without angle (the real parser raises '
+        'ValueError for the whole file), wrong parameter counts, text containing its own closing delimiter, valueless flags (treated as '
+        'comment text), duplicate keys in one property list, tag in a global line, angles in arcsec/arcmin, exponent notation and '
+        'numbers with a trailing dot ("24." as a size/angle raises KeyError in the real parser), longitude wrap; the contradictory '
+        '"-shape ... # include=1" is read as included (property list after sign, as DS9 does) ',
     ]
 
     # ---------------------------------------------------------------- generation
     def generate(self, rng, tier):
-        n = 420 if tier == 'quick' else 20000
+        n = 2000 if tier == 'quick' else 60000
         g = Gen(rng, tier)
         cases = [g.file() for _ in range(n)]
         # a fixed family: every shape x every frame word x both layouts, minimal files
@@ -836,6 +872,8 @@ class Check(PropertyCheck):
         text = render_text(case['lines'], case['join'], case['final_nl'])
         out = parse_real(text)
         out['text'] = text
+        if semi_triggers(stmts):
+            out['nosemi'] = parse_real(render_text(without_semis(case['lines']), case['join'], case['final_nl']))
         if 'exc' in out:
             return out
         V = {}
@@ -907,7 +945,9 @@ class Check(PropertyCheck):
 
     # ---------------------------------------------------------------- model
     def requests(self, case):
-        return [{'op': 'ds9.interp', 'toks': render_toks(case)}]
+        # the text goes along so that the Lean lexer (Spec.Ds9.lex) can confirm the tokenisation
+        return [{'op': 'ds9.interp', 'toks': render_toks(case),
+                 'text': render_text(case['lines'], case['join'], case['final_nl'])}]
 
     def model(self, case, replies):
         r = replies[0]
@@ -917,25 +957,61 @@ class Check(PropertyCheck):
         for x in r['regions']:
             regs.append({'kind': x['kind'], 'frame': x['frame'], 'pts': x['pts'], 'sizes': x['sizes'], 'angle': x['angle'],
                          'incl': x['incl'], 'view': expected_view(x['kind'], x['props']), 'src': int(x['src'])})
-        return {'regions': regs, 'nstmts': int(r['nstmts'])}
+        return {'regions': regs, 'nstmts': int(r['nstmts']), 'lex_ok': r.get('lex_ok'), 'lex_diff': r.get('lex_diff')}
 
     def equal(self, case, real, model):
         """True iff the real result equals the reference, or every difference falls in the input class of an
         OPEN known finding (those are reported by oracle() as violations of the property, never dropped)."""
-        real['_diffs'] = diffs = []
+        real['_diffs'] = []
         if 'fail' in model:
-            diffs.append({'kind': 'driver_failure', 'detail': model['fail']})
+            real['_diffs'] = [{'kind': 'driver_failure', 'detail': model['fail']}]
             return False
-        if 'exc' in real:
-            diffs.append({'kind': 'exception', 'detail': real['exc'] + ' :: ' + repr(real['text'])})
+        if model.get('lex_ok') is not True:
+            real['_diffs'] = [{'kind': 'lexer_mismatch', 'detail': f"Spec.Ds9.lex(text) differs from the rendered tokens: "
+                                                                     f"{model.get('lex_diff')} :: {real.get('text')!r}"}]
             return False
         stmts = flat(case)
+        if 'exc' in real:
+            diffs, ok = [{'kind': 'exception', 'detail': real['exc'] + ' :: ' + repr(real['text'])}], False
+        else:
+            diffs, ok = self._compare(stmts, real['regions'], model['regions'], real)
+        trig = semi_triggers(stmts)
+        if not ok and trig and 'exc' not in real.get('nosemi', {'exc': 1}):
+            # F34: does the file agree with the reference once the triggering ';' are replaced by ','?
+            tl = {i for i, _ in trig}
+            B2 = []
+            for b in model['regions']:
+                if b['src'] in tl:
+                    b = dict(b, view=dict(b['view']))
+                    for k in ('text', 'tag'):
+                        if k in b['view']:
+                            v = b['view'][k]
+                            b['view'][k] = ['s', v[1].replace(';', ',')] if v and v[0] == 's' else \
+                                [['s', x[1].replace(';', ',')] for x in v]
+                B2.append(b)
+            # (a lowercase `text` value of the same line keeps its ';' in the variant too)
+            for b in B2:
+                s0 = stmts[b['src']]
+                for p in (s0.get('props') or {'items': []})['items']:
+                    if p['key'] == 'text' and b['src'] in tl and 'text' in b['view']:
+                        b['view']['text'] = ['s', p['val']]
+            d2, ok2 = self._compare(stmts, real['nosemi']['regions'], B2, real)
+            if ok2:
+                diffs = d2 + [{'kind': 'semicolon_in_value_splits_line', 'keys': [k for _, k in trig],
+                               'detail': f"';' inside the value of {[k for _, k in trig]} splits the line: "
+                                         f"{(real.get('exc') or str(len(real['regions'])) + ' regions')} instead of "
+                                         f"{len(model['regions'])} regions :: {real['text']!r}"}]
+                ok = True
+        real['_diffs'] = diffs
+        return ok
+
+    def _compare(self, stmts, A, B, real):
+        diffs = []
         ginc = scope_info(stmts)
-        A, B = real['regions'], model['regions']
         if len(A) != len(B):
             diffs.append({'kind': 'reference_mismatch',
-                          'detail': f'{len(A)} regions, reference {len(B)} :: {real["text"]!r} warnings={real["warnings"][:3]}'})
-            return False
+                          'detail': f'{len(A)} regions, reference {len(B)} :: {real["text"]!r} warnings={real.get("warnings", [])[:3]}'})
+            return diffs, False
         ok = True
         for n, (a, b) in enumerate(zip(A, B)):
             s = stmts[b['src']]
@@ -948,14 +1024,14 @@ class Check(PropertyCheck):
                 local_inc = [p for p in (s.get('props') or {'items': []})['items'] if p['key'].lower() == 'include']
                 if f == 'incl' and s['sign'] == '' and not local_inc and ginc[b['src']] == '0' and av is True and bv is False:
                     v.update(kind='global_include_ignored', sign=s['sign'], local_include=None, global_include='0')
-                elif f == 'view.text' and bv[0] == 's' and is_pyfloat(bv[1]) and av[0] in ('int', 'float'):
+                elif f == 'view.text' and bv and bv[0] == 's' and is_pyfloat(bv[1]) and av and av[0] in ('int', 'float'):
                     v.update(kind='text_converted_to_number', value=bv[1])
                 elif f in ('view.text', 'view.tag') and self._edge_case(av, bv):
                     v.update(kind='text_delimiter_chars_stripped', value=self._edge_case(av, bv))
                 else:
                     ok = False
                 diffs.append(v)
-        return ok
+        return diffs, ok
 
     @staticmethod
     def _edge_case(av, bv):
@@ -976,10 +1052,14 @@ class Check(PropertyCheck):
         def bad(kind, detail, **kw):
             V.append(dict(kind=kind, detail=f'{detail} :: {text!r}', **kw))
         if 'exc' in real:
-            if not any(v['kind'] == 'exception' for v in V):
+            if not any(v['kind'] in ('exception', 'semicolon_in_value_splits_line') for v in V):
                 bad('exception', real['exc'])
             return V
         stmts = flat(case)
+        if semi_triggers(stmts):
+            # F34 input class: every layout variant of such a file is split differently by the same defect;
+            # the metamorphic clauses are checked on the files outside that class
+            return V
         var = real['variants']
         base = real['regions']
         for name in ('nl', 'semi', 'paren', 'bare', 'nobad'):
@@ -1067,6 +1147,8 @@ class Check(PropertyCheck):
             return is_pyfloat(v.get('value', 'x'))
         if k == 'text_delimiter_chars_stripped':
             return edge_delim(v.get('value') or '')
+        if k == 'semicolon_in_value_splits_line':
+            return bool(v.get('keys')) and all(key != 'text' for key in v['keys'])
         return False
 
     def nontrivial(self, case, real):
